@@ -142,7 +142,7 @@ static int g_polarity = -1;    /* learned: value of the bitmap bit for a NULL ro
 typedef struct { ref_buf dump; } sink_t;
 static void check_batches(carquet_reader_t* rd, const rfile_t* f, const ref_coldata* cols, int64_t batch_size, const int* proj, int nproj, bool by_name, const char* fdesc, ref_buf* dump) {
     carquet_batch_reader_config_t cfg; carquet_batch_reader_config_init(&cfg); cfg.batch_size = batch_size; cfg.num_threads = 1;
-    int32_t idx[RF_MAXC]; const char* names[RF_MAXC]; static const char* DN[] = { "c0", "c1", "c2", "c3" };
+    int32_t idx[RF_MAXC]; const char* names[RF_MAXC]; static const char* DN[] = { "k1x", "k1", "k", "k1xy" };     /* later names are prefixes of earlier ones: a lookup that matches prefixes picks the wrong column */
     for (int i = 0; i < nproj; i++) { idx[i] = proj[i]; names[i] = f->col[proj[i]].name ? f->col[proj[i]].name : DN[proj[i]]; }
     if (nproj > 0) { if (by_name) { cfg.column_names = names; cfg.num_column_names = nproj; } else { cfg.column_indices = idx; cfg.num_columns = nproj; } }
     int np = nproj > 0 ? nproj : f->ncols; int pr[RF_MAXC]; for (int i = 0; i < np; i++) pr[i] = nproj > 0 ? proj[i] : i;
@@ -209,7 +209,7 @@ static void dump_mode(int mode, int verify, const uint8_t* img, size_t n, const 
     for (int i = 0; i < carquet_schema_num_elements(sc); i++) { const carquet_schema_node_t* nd = carquet_schema_get_element(sc, i); snprintf(t, sizeof t, "|el%d %s leaf%d t%d r%d tl%d d%d p%d|", i, carquet_schema_node_name(nd), carquet_schema_node_is_leaf(nd), carquet_schema_node_is_leaf(nd) ? (int)carquet_schema_node_physical_type(nd) : -1, (int)carquet_schema_node_repetition(nd), carquet_schema_node_type_length(nd), carquet_schema_node_is_leaf(nd) ? carquet_schema_node_max_def_level(nd) : -1, carquet_schema_node_is_leaf(nd) ? carquet_schema_node_max_rep_level(nd) : -1); ref_buf_put(d, t, strlen(t)); }
     for (int g = 0; g < carquet_reader_num_row_groups(rd); g++) { carquet_row_group_metadata_t md; if (carquet_reader_row_group_metadata(rd, g, &md) == CARQUET_OK) { snprintf(t, sizeof t, "|rg%d rows%lld b%lld c%lld|", g, (long long)md.num_rows, (long long)md.total_byte_size, (long long)md.total_compressed_size); ref_buf_put(d, t, strlen(t)); } }
     /* column content under every read-size composition (N <= 6), recorded verbatim */
-    int nrg = f->nrg ? f->nrg : 1;
+    int nrg = f->nrg > 0 ? f->nrg : f->nrg < 0 ? 0 : 1;
     for (int g = 0; g < nrg; g++) for (int c = 0; c < f->ncols; c++) {
         int N = f->N; uint32_t ncomp = (N > 0 && N <= 6) ? (1u << (N - 1)) : 1; int w = ref_type_width(f->col[c].ptype, f->col[c].tlen);
         for (uint32_t comp = 0; comp < ncomp; comp++) {
@@ -335,6 +335,12 @@ static void enumerate(void) {
               set_pages(&f, 0, N, pa); set_pages(&f, 1, N, pb); f.enc[0] = ENC_PLAIN; f.enc[1] = (mx == 1 && cd) ? ENC_RLE_DICT : ENC_PLAIN; f.dict_offset_present = true;
               c03_file(&f, mc_mix(0xc03, ((uint64_t)mx << 56) | ((uint64_t)o1 << 55) | ((uint64_t)N << 48) | ((uint64_t)pa << 32) | ((uint64_t)pb << 8) | ((uint64_t)cd << 4) | (uint64_t)nrg));
           } }
+    mc_stage("c03.files-without-row-groups");
+    for (int nc = 1; nc <= 4; nc++) for (int tf = 0; tf < 4; tf++) for (int kv = 0; kv < 2; kv++) {
+        memset(&f, 0, sizeof f); f.ncols = nc; f.N = 0; f.nrg = -1; for (int c = 0; c < nc; c++) { f.col[c].ptype = TYPES[(c * 3 + nc) % 8]; f.col[c].tlen = f.col[c].ptype == PT_FLBA ? 5 : 0; f.col[c].opt = c & 1; }
+        f.fl.tform.long_field_headers = tf & 1; f.fl.tform.long_list_headers = (tf >> 1) & 1; f.fl.kv = kv;
+        c03_file(&f, mc_mix(0xc03c, ((uint64_t)nc << 16) | ((uint64_t)tf << 8) | (uint64_t)kv));
+    }
     mc_stage("c03.all-types.codecs.long");
     { static const int CD[] = { CODEC_NONE, CODEC_SNAPPY, CODEC_GZIP, CODEC_ZSTD, CODEC_LZ4_RAW };
       for (int t = 0; t < 8; t++) for (int opt = 0; opt < 2; opt++) for (int cd = 0; cd < 5; cd++) for (int enc = 0; enc < 2; enc++) for (int pgs = 1; pgs <= 4; pgs++) {
